@@ -82,7 +82,7 @@ def handleT (kind nopsS pos : String) : String :=
   let e : TxnEnd := if pos.startsWith "p" then .panics else if pos.startsWith "e" then .returnsError else .completes (nops > 0)
   let o : Option TxnObs :=
     match kind with
-    | "updates" | "updates-t1" | "updates-t2" | "updates-t3" | "updates-s" => some (managed true e)
+    | "updates" | "updates-t1" | "updates-t2" | "updates-t3" | "updates-s" | "updates-u" => some (managed true e)
     | "view" => some (managed false e)
     | "handle" => some (singleOp 0)
     | "update" => some (singleOp 2)
